@@ -505,3 +505,163 @@ theorem crash_safe_not_banned (d : Disk) (v : String) (m : Meta) (hb : BanD d (l
   · exact hbo m h'
 
 end Updater
+
+namespace Updater
+
+/-! ### the save events are faithful to the atomic semantics
+
+  Replaying a section's save events on the state files it starts from gives exactly the state files
+  of the section function's result: the crash semantics and `step` are two readings of one model. -/
+
+theorem applySaves_append (cur : StateFiles) (a b : List SaveEv) :
+    applySaves cur (a ++ b) = applySaves (applySaves cur a) b := by
+  simp [applySaves, List.foldl_append]
+
+theorem tryFallBack_files (env key) (pm : PM) (n : Nat) :
+    files (pm.tryFallBack env key n).disk = ((files pm.disk).1, .ok (pm.tryFallBack env key n).ps) := by
+  simp only [files, tryFallBack_sj]
+  rw [tryFallBack_disk]
+
+theorem loadSaves_apply (d : Disk) (v : String) : applySaves (files d) (loadSaves d v) = files (loadOrNew d v).pm.disk := by
+  by_cases h : Settled d v
+  · obtain ⟨s, hs, hv⟩ := h
+    rw [loadSaves_settled d v ⟨s, hs, hv⟩, loadOrNew_settled d v s hs hv]; rfl
+  · rw [loadSaves_unsettled d v h, loadOrNew_unsettled d v h]; rfl
+
+theorem nextBootPatchSaves_apply (env key) (pm : PM) (hco : pm.disk.patchesJson = .ok pm.ps ∨ pm.nextBootPatchSaves env key = [] ∨ True) :
+    applySaves (files pm.disk) (pm.nextBootPatchSaves env key) = files (pm.nextBootPatch env key).1.disk := by
+  unfold PM.nextBootPatchSaves PM.nextBootPatch
+  cases pm.ps.next with
+  | none => rfl
+  | some nx =>
+    simp only
+    split
+    · rfl
+    · simp only [applySaves, List.foldl, SaveEv.apply, tryFallBack_files]
+
+theorem recordBootStartSaves_apply (pm : PM) (n : Nat) :
+    applySaves (files pm.disk) (pm.recordBootStartSaves n) = files (pm.recordBootStart n).1.disk := by
+  unfold PM.recordBootStartSaves PM.recordBootStart
+  cases pm.ps.next with
+  | none => rfl
+  | some nx => simp only; split <;> rfl
+
+theorem recordBootSuccessSaves_apply (pm : PM) :
+    applySaves (files pm.disk) pm.recordBootSuccessSaves = files pm.recordBootSuccess.1.disk := by
+  unfold PM.recordBootSuccessSaves PM.recordBootSuccess
+  cases pm.ps.booting with
+  | none => rfl
+  | some bp =>
+    simp only [applySaves, List.foldl, SaveEv.apply, files, PM.save]
+    have := deleteOlderThan_sj ({ pm with ps := { pm.ps with booting := none, last := some bp } } : PM) bp.number
+    simp only [this]
+
+theorem foldFallBackSaves_apply (env key) (ns : List Nat) (pm : PM) :
+    applySaves (files pm.disk) (foldFallBackSaves env key ns pm) =
+      (if ns = [] then files pm.disk else ((files pm.disk).1, .ok (ns.foldl (fun pm x => pm.tryFallBack env key x) pm).ps)) ∧
+    (files (ns.foldl (fun pm x => pm.tryFallBack env key x) pm).disk).1 = (files pm.disk).1 := by
+  induction ns generalizing pm with
+  | nil => exact ⟨rfl, rfl⟩
+  | cons n ns ih =>
+    obtain ⟨h1, h2⟩ := ih (pm.tryFallBack env key n)
+    have hsj : (files (pm.tryFallBack env key n).disk).1 = (files pm.disk).1 := by simp [files, tryFallBack_sj]
+    refine ⟨?_, by simp only [List.foldl]; rw [h2, hsj]⟩
+    simp only [foldFallBackSaves, applySaves, List.foldl, SaveEv.apply, List.cons_ne_nil, if_false]
+    have h1' : List.foldl SaveEv.apply (files (pm.tryFallBack env key n).disk) (foldFallBackSaves env key ns (pm.tryFallBack env key n)) = _ := h1
+    rw [tryFallBack_files] at h1'
+    rw [h1']
+    by_cases hns : ns = []
+    · subst hns; simp
+    · simp only [hns, if_false]
+
+section
+variable (env : Env) (cfg : Config) (d : Disk)
+
+theorem secNextBootPatchSaves_apply :
+    applySaves (files d) (secNextBootPatchSaves env cfg d) = files (secNextBootPatch env cfg d).1 := by
+  simp only [secNextBootPatchSaves, secNextBootPatch, applySaves_append, loadSaves_apply]
+  exact nextBootPatchSaves_apply env cfg.key _ (Or.inr (Or.inr trivial))
+
+theorem secLaunchStartSaves_apply :
+    applySaves (files d) (secLaunchStartSaves env cfg d) = files (secLaunchStart env cfg d) := by
+  simp only [secLaunchStartSaves, secLaunchStart, applySaves_append, loadSaves_apply]
+  rw [nextBootPatchSaves_apply env cfg.key _ (Or.inr (Or.inr trivial))]
+  cases ((loadOrNew d cfg.version).pm.nextBootPatch env cfg.key).2 with
+  | none => rfl
+  | some n => exact recordBootStartSaves_apply _ n
+
+theorem secLaunchSuccessSaves_apply :
+    applySaves (files d) (secLaunchSuccessSaves cfg d) = files (secLaunchSuccess env cfg d).1 := by
+  simp only [secLaunchSuccessSaves, secLaunchSuccess, applySaves_append, loadSaves_apply]
+  rw [recordBootSuccessSaves_apply]
+  cases hb : (loadOrNew d cfg.version).pm.ps.booting with
+  | none =>
+    have : (loadOrNew d cfg.version).pm.recordBootSuccess.1 = (loadOrNew d cfg.version).pm := by
+      unfold PM.recordBootSuccess; simp [hb]
+    simp only [this]; rfl
+  | some bp => simp only; split <;> (try split) <;> rfl
+
+theorem failureSaves_apply (us : US) (msg : Nat → String) (hsj : us.pm.disk.stateJson = .ok us.ss ∨ True) :
+    applySaves (files us.pm.disk) (failureSaves env cfg us msg) =
+      files (match us.pm.ps.booting with
+        | some p => (({ us with pm := us.pm.recordBootFailure env cfg.key p.number } : US).queueEvent
+            (mkEvent env cfg .installFailure p.number (some (msg p.number)))).disk
+        | none => us.disk) := by
+  unfold failureSaves
+  cases us.pm.ps.booting with
+  | none => rfl
+  | some p =>
+    simp only [applySaves, List.foldl, SaveEv.apply, US.queueEvent, US.save, US.disk, files]
+    unfold PM.recordBootFailure
+    rw [tryFallBack_disk]
+
+theorem secHandlePriorSaves_apply :
+    applySaves (files d) (secHandlePriorSaves env cfg d) = files (secHandlePriorBootFailure env cfg d) := by
+  simp only [secHandlePriorSaves, secHandlePriorBootFailure, applySaves_append, loadSaves_apply]
+  rw [failureSaves_apply env cfg _ _ (Or.inr trivial)]
+  cases (loadOrNew d cfg.version).pm.ps.booting <;> rfl
+
+theorem secLaunchFailureSaves_apply :
+    applySaves (files d) (secLaunchFailureSaves env cfg d) = files (secLaunchFailure env cfg d) := by
+  simp only [secLaunchFailureSaves, secLaunchFailure, applySaves_append, loadSaves_apply]
+  rw [failureSaves_apply env cfg _ _ (Or.inr trivial)]
+  cases (loadOrNew d cfg.version).pm.ps.booting <;> rfl
+
+theorem secClearEventsSaves_apply :
+    applySaves (files d) (secClearEventsSaves cfg d) = files (secClearEvents cfg d) := by
+  simp only [secClearEventsSaves, secClearEvents, applySaves_append, loadSaves_apply]
+  rfl
+
+theorem secInstallSaves_apply (o : Offer) (out : Bytes) :
+    applySaves (files d) (secInstallSaves cfg d o out) = files (secInstall cfg d o out) := by
+  simp only [secInstallSaves, secInstall, applySaves_append, loadSaves_apply]
+  simp only [applySaves, List.foldl, SaveEv.apply, files, addPatch_sj]
+  congr 1
+
+theorem secRollBackSaves_apply (ns : List Nat) (hne : ns ≠ []) :
+    applySaves (files d) (secRollBackSaves env cfg d ns) = files (secRollBack env cfg d ns) := by
+  simp only [secRollBackSaves, secRollBack, applySaves_append, loadSaves_apply]
+  obtain ⟨h1, h2⟩ := foldFallBackSaves_apply env cfg.key ns (loadOrNew d cfg.version).pm
+  rw [h1]
+  simp only [hne, if_false]
+  have hco := (foldFallBack_ban env cfg.key ns (loadOrNew d cfg.version).pm [] (loadOrNew_coherent d cfg.version) (BanPS_nil _)).1
+  apply Prod.ext
+  · exact h2.symm
+  · -- the last fallback saved the record
+    have last_saved : ∀ (ns : List Nat) (pm : PM), ns ≠ [] →
+        (ns.foldl (fun pm x => pm.tryFallBack env cfg.key x) pm).disk.patchesJson =
+          .ok (ns.foldl (fun pm x => pm.tryFallBack env cfg.key x) pm).ps := by
+      intro ns
+      induction ns with
+      | nil => intro pm h; exact absurd rfl h
+      | cons n rest ih =>
+        intro pm _
+        simp only [List.foldl]
+        by_cases hr : rest = []
+        · subst hr; simp only [List.foldl]; rw [tryFallBack_disk]
+        · exact ih _ hr
+    exact (last_saved ns _ hne).symm
+
+end
+
+end Updater
